@@ -1,8 +1,8 @@
 (* C14 phase 2: agreement of the two reader models on modules without blackbox instances (part A6) *)
 From Coq Require Import Ascii.
 From stdpp Require Import strings gmap sets pretty.
-From CG Require Import Model.FastVerilog Proofs.FastVerilogProofs Proofs.ApiProofs Gen.Gen_fastv.
-From CG Require Import Proofs.FvA1 Proofs.FvA2 Proofs.FvA3 Proofs.FvA4 Proofs.FvA5.
+From CG Require Import Model.FastVerilog Proofs.FastVerilogProofs Gen.Gen_fastv.
+From CG Require Import Proofs.FvA0 Proofs.FvA1 Proofs.FvA2 Proofs.FvA3 Proofs.FvA4 Proofs.FvA5.
 Open Scope string_scope.
 
 Definition no_inst (a : ast) : bool := forallb (λ it, match it with IInst _ _ _ => false | _ => true end) (a_items a).
